@@ -662,6 +662,21 @@ fn order_level(
             }
         }
     }
+    // adjacent commands: "you can mix chained commands with regular arguments that belong to the
+    // top level parser" - a random number of the level's last named units goes between and after
+    // the command blocks instead of in front of them
+    let all_adjacent = !cmds.is_empty()
+        && cmds
+            .iter()
+            .all(|c| matches!(c, Atom::Cmd { adjacent: true, .. }));
+    let mut late: Vec<&Atom> = Vec::new();
+    if all_adjacent && style == OrderStyle::Random && !use_dd {
+        let named_at: Vec<usize> = (0..seq.len()).filter(|i| is_named_unit(seq[*i])).collect();
+        let k = rng.below(named_at.len() + 1);
+        for &i in named_at[named_at.len() - k..].iter().rev() {
+            late.insert(0, seq.remove(i));
+        }
+    }
     for a in seq {
         emit(a, depth, None, false, blocks, out);
     }
@@ -682,9 +697,11 @@ fn order_level(
             names,
             shorts,
             inner,
-            ..
+            adjacent,
         } = c
         {
+            // `--` inside the block of an adjacent command turns the rest of the line into words
+            let dd = if *adjacent { DashDash::IfNeeded } else { dd };
             out.push(U {
                 kind: UKind::CmdName {
                     id: *id,
@@ -696,7 +713,13 @@ fn order_level(
                 after_dd: false,
             });
             order_level(inner, rng, style, dd, depth + 1, blocks, out)?;
+            while !late.is_empty() && rng.chance(1, 2) {
+                emit(late.remove(0), depth, None, false, blocks, out);
+            }
         }
+    }
+    for a in late {
+        emit(a, depth, None, false, blocks, out);
     }
     Some(())
 }
